@@ -113,6 +113,30 @@ Theorem C06_specobjid_scalar_array_agree : forall p f m r,
 Proof. exact specobjid_scalar_array_agree. Qed.
 Print Assumptions C06_specobjid_scalar_array_agree.
 
+(* array calling convention, every length: the glue model is the row-wise documented behaviour *)
+Theorem C06_objid_model_arrays : forall d r c f o rr s ff,
+  objid_model d (Ar r) (Ar c) (Ar f) (Ar o) (Ar rr) (Ar s) (Ar ff) =
+  let n := length r in
+  let cols := [s; rr; r; c; ff; f; o] in
+  if forallb (fun col => Nat.eqb (length col) n) cols then
+    let rows := zip_rows cols n in
+    if forallb objid_doc_ranges rows then Ok (map (pack objid_table) rows) else ValueError
+  else ValueError.
+Proof. exact objid_model_arrays. Qed.
+Print Assumptions C06_objid_model_arrays.
+
+Theorem C06_specobjid_model_arrays : forall p f m r (line : option (list Z)),
+  specobjid_model (Ar p) (Ar f) (Ar m) (R2arr r) (option_map Ar line) None =
+  let n := length p in
+  let l := match line with Some l => l | None => repeat 0 n end in
+  let cols := [p; f; map (fun z => z - 50000) m; r; l; repeat 0 n] in
+  if forallb (fun col => Nat.eqb (length col) n) cols then
+    let rows := zip_rows cols n in
+    if forallb specobjid_doc_ranges rows then Ok (map spec_row_pack rows) else ValueError
+  else ValueError.
+Proof. exact specobjid_model_arrays. Qed.
+Print Assumptions C06_specobjid_model_arrays.
+
 (* non-vacuity: the documented example IDs satisfy the hypotheses *)
 Example C06_example_objid :
   checks_ok objid_checks [2; 301; 3704; 3; 0; 91; 146] = true /\
